@@ -198,8 +198,12 @@ func execute(pr *pair, env *stateEnv, id *caseID) *verdict {
 		v.violate("producer-step-failed", err.Error())
 		return v
 	}
+	probeReceived := false
 	for _, r := range rs {
 		v.Gens++
+		if r.Send.Hash == probe.Hash && r.Inserted {
+			probeReceived = true
+		}
 		if r.failed() || !r.Inserted {
 			to := contractNameOf(r.Send.ToAddress)
 			what := fmt.Sprintf("after the call, the producer cannot process the next entry of the %s inbox (send %v from %v, data %x): %s insert=%v", to, r.Send.Hash, r.Send.Address, r.Send.Data, r.describe(), r.InsErr)
@@ -216,7 +220,7 @@ func execute(pr *pair, env *stateEnv, id *caseID) *verdict {
 			return v
 		}
 	}
-	if !P.Chain.GetFrontierAccountStore(c.Addr).IsReceived(probe.Hash) {
+	if !probeReceived {
 		v.violate("inbox-wedged", "a well-formed probe call sent after the call was not received within one producer step")
 		return v
 	}
